@@ -5,6 +5,8 @@ CONSTANTS McDepth = 2
           GenDepth = 3
           GenChainCfgName = "c1"
           GenChainOps = 3
+          GenFuncCfgName = "c1"
+          GenLenOps = 2
           GenPtr = TRUE
           SimMinDepth = 4
           SimMaxDepth = 4
